@@ -1007,6 +1007,25 @@ fn make_var_heavy(r: &mut Rng, p: &mut Prog, d: &J) {
         p.rules.push(rule("tw3_a".into(), vec![], vec![Line { alts: vec![Clause::Call { not: false, name: "twp".into(), args: vec![Arg::Query(kq_plain.clone()), Arg::Lit(l3.clone())], msg: None }] }]));
         p.rules.push(rule("tw3_b".into(), vec![], vec![cmp(kq_plain, op3, not3, Some(rules::Rhs::Lit(l3)))]));
     }
+    // an inner variable that shadows an outer one and is defined THROUGH another outer variable
+    // whose own definition uses the outer one (sx -> sy -> outer sx): legal, no cycle; which
+    // reference forces `sy` first depends on the order of the rules
+    if r.chance(1, 3) {
+        let k = key(r);
+        p.lets.push(Let { name: "sx".into(), val: Arg::Query(Query { some: false, parts: vec![Part::Key(k)] }) });
+        p.lets.push(Let { name: "sy".into(), val: Arg::Query(Query { some: false, parts: vec![Part::Var("sx".into())] }) });
+        let c1 = var_clause("sx", r);
+        let c2 = var_clause("sy", r);
+        let inner = Rule { name: "probe_shadow_chain".into(), when: vec![], body: Body { lets: vec![Let { name: "sx".into(), val: Arg::Query(Query { some: false, parts: vec![Part::Var("sy".into())] }) }], lines: vec![Line { alts: vec![c1] }] } };
+        let outer = Rule { name: "probe_shadow_chain_outer".into(), when: vec![], body: Body { lets: vec![], lines: vec![Line { alts: vec![c2] }] } };
+        if r.chance(1, 2) {
+            p.rules.push(inner);
+            p.rules.push(outer);
+        } else {
+            p.rules.push(outer);
+            p.rules.push(inner);
+        }
+    }
     // two rules of one name (legal), each with its own rule-level variable of the same
     // name bound to something else; no rule refers to them by name
     if r.chance(1, 3) {
